@@ -118,7 +118,12 @@ def strategy(tier):
             {'type': 2, 'nsp': '*', 'data': ['zz', '§B1§'], 'id': 1},
             {'type': 2, 'nsp': '*', 'data': ['a', '§B2§']},
             {'type': 1, 'nsp': '*'}, {'type': 0, 'nsp': 'x'},
-            {'type': 0, 'nsp': ''}, {'type': 2, 'nsp': '', 'data': ['a']}])}),
+            {'type': 0, 'nsp': ''}, {'type': 2, 'nsp': '', 'data': ['a']},
+            # ... or as anything else
+            {'type': 0, 'nsp': 7}, {'type': 0, 'nsp': b'/x'},
+            {'type': 0, 'nsp': ['/']}, {'type': 0, 'nsp': 1.5},
+            {'type': 2, 'nsp': 7, 'data': ['b', '§B0§']},
+            {'type': 0, 'nsp': True}, {'type': 0, 'nsp': {'/': 1}}])}),
         st.fixed_dictionaries({'k': st.just('by'), 'b': st.integers(0, 2),
                                'id': st.one_of(st.none(),
                                                st.integers(0, 3))}))
@@ -127,6 +132,9 @@ def strategy(tier):
     def mk(ser):
         return S.fdict({
             'aio': st.booleans(), 'serializer': st.just(ser),
+            # the served namespaces: a fixed list, or any (the offender can
+            # then create namespaces of its own)
+            'nsconf': st.sampled_from(['list', 'list', 'star']),
             'off_ns': st.lists(st.sampled_from([0, 1, 2, 3]), max_size=3,
                                unique=True),
             'frames': st.lists(frame if ser == 'default' else mp,
@@ -165,7 +173,7 @@ def _limits():
 def check_case(case):
     _limits()
     w = World(aio=case['aio'], serializer=case['serializer'],
-              namespaces=NSS)
+              namespaces='*' if case.get('nsconf') == 'star' else NSS)
     try:
         return _run(case, w)
     finally:
@@ -568,6 +576,27 @@ def _run(case, w):
         if cb_log[ncb:] != [(b['i'], b['ns'], ('done', n))]:
             raise Violation('bystander-callback-afterwards',
                             repr(cb_log[ncb:]))
+    # ... and let go of: the transport of each bystander ends, its disconnect
+    # handlers run once each and nothing of it is left
+    for t in sorted({b['t'] for b in by}):
+        log.clear()
+        w.lose(t)
+        w.h.settle()
+        mine = [b for b in by if b['t'] == t]
+        ran = sorted(e[1][0] for e in log if e[0] == 'disconnect')
+        if ran != sorted(b['sid'] for b in mine):
+            raise Violation('bystander-disconnect-afterwards',
+                            'transport %d ended: disconnect handlers ran '
+                            'for %r, its clients are %r (%r)'
+                            % (t, ran, [b['sid'] for b in mine],
+                               w.h.swallowed[:1]))
+        for b in mine:
+            if sio.manager.is_connected(b['sid'], b['ns']) or \
+                    sio.rooms(b['sid'], namespace=b['ns']):
+                raise Violation('bystander-disconnect-afterwards',
+                                'client %s is still held' % b['sid'])
+    if case.get('nsconf') == 'star':
+        labels['any_namespace_served'] = True
     return labels
 
 
